@@ -74,8 +74,10 @@ func refTag(tag byte) bool {
 }
 
 func (e *Encoder) writeRef(index int) (int, error) {
-	e.writeBT(_refStartTag)
-	return e.writer.Write(encodeInt(int32(index)))
+	if _, err := e.writeBT(_refStartTag); err != nil {
+		return 0, err
+	}
+	return e.writeInt(int32(index))
 }
 
 // return the order number of ref object if found ,
